@@ -258,7 +258,41 @@ Fixpoint match_op (s : str) (t : list (str * oper)) : option (str * oper * str) 
   | (p, o) :: r => if str_starts s p then Some (p, o, skipn (length p) s) else match_op s r
   end.
 
-Definition single_of_text (leaf : str) : option condition :=
+(** split_arithmetic_comparison (repair of the parser): the first symbolic comparison operator outside string literals and parentheses *)
+Definition sym_ops : list (str * oper) := firstn 6 op_table.
+Fixpoint split_cmp (s : str) (q : option Z) (depth : Z) (acc : str) : option (str * str * str) :=
+  match s with
+  | [] => None
+  | c :: r =>
+      match q with
+      | Some x => split_cmp r (if c =? x then None else q) depth (c :: acc)
+      | None =>
+          if (c =? 34) || (c =? 39) then split_cmp r (Some c) depth (c :: acc)
+          else if c =? 40 then split_cmp r None (depth + 1) (c :: acc)
+          else if c =? 41 then split_cmp r None (depth - 1) (c :: acc)
+          else if depth =? 0 then
+                 match match_op s sym_ops with
+                 | Some (ptxt, _, rest) => Some (rev acc, ptxt, rest)
+                 | None => split_cmp r None depth (c :: acc)
+                 end
+               else split_cmp r None depth (c :: acc)
+      end
+  end.
+(** an arithmetic left-hand side with parentheses, or one that does not start with a field: a test condition over the whole text *)
+Definition wide_test (leaf : str) : option condition :=
+  match split_cmp leaf None 0 [] with
+  | Some (l, ptxt, r) =>
+      let lhs := trim ws_unicode l in let rhs := trim ws_unicode r in
+      match lhs, rhs with
+      | [], _ | _, [] => None
+      | _, _ => if has_arith_char lhs && (memc 40 lhs || negb (starts_with_field lhs))
+                then Some {| c_expr := CTest (lhs ++ [32] ++ ptxt ++ [32] ++ rhs); c_op := OEq; c_val := VBool true |}
+                else None
+      end
+  | None => None
+  end.
+
+Definition single_of_text_regex (leaf : str) : option condition :=
   match scan_path (S (length leaf)) leaf with
   | None => None
   | Some (path, r0) =>
@@ -276,6 +310,9 @@ Definition single_of_text (leaf : str) : option condition :=
           end
       end
   end.
+
+Definition single_of_text (leaf : str) : option condition :=
+  match wide_test leaf with Some c => Some c | None => single_of_text_regex leaf end.
 
 Fixpoint group_of_ptree (t : ptree) : option cgroup :=
   match t with
@@ -413,8 +450,6 @@ Definition ok_sx (c o : sx) : Z :=
   | L [A 1; _; g] => match dec_gcond g with
                      | Some g => match compile_cond (strip g) with
                                  | Some cg => if sx_eqb o (L [A 1; enc_group cg]) then 1 else 0
-                                 (* the written tree has a comparison whose left-hand side is arithmetic with parentheses (or a literal first):
-                                    the condition pattern of the parser does not accept it and the clause is rejected - known finding, class 7 *)
-                                 | None => if sx_eqb o (L [A 2]) then 7 else 0 end
+                                 | None => 0 end
                      | None => 0 end
   | _ => 0 end.
